@@ -85,7 +85,7 @@ class PDFParser(PSStackParser[Union[PSKeyword, PDFStream, PDFObjRef, None]]):
             if not self.fallback:
                 try:
                     objlen = int_value(dic["Length"])
-                    if objlen < 0 or objlen > sys.maxsize:
+                    if objlen < 0 or objlen > sys.maxsize - pos - 4096:
                         # not a length: find the end by scanning for
                         # `endstream` as if it were missing
                         objlen = 0
